@@ -193,8 +193,14 @@ def identity_tuple(text: str, scratch: str, ctx: dict, data, *, cli_run: bool = 
     T["construct.node_semantic_id"] = nsids
     T["construct.config_id"] = compute_pipeline_config_id(list(zip(uuids, nsids)))
     # ---- path 3: traced run, twice on the same Pipeline object
-    for tag in ("trace", "trace_run2"):
-        tr = tc.traced_run(cfg.nodes, data, ctx, detail="hash", scratch=scratch, pipeline=pipe)
+    # the driver's detail option selects how much summary a SER carries; the identities of pipeline_start do not depend on it
+    import zlib
+
+    h = zlib.crc32(text.encode("utf-8", "surrogatepass"))
+    for j, tag in enumerate(("trace", "trace_run2")):
+        detail = TRACE_DETAILS[(h + 2 * j) % len(TRACE_DETAILS)]
+        T[f"{tag}.detail_option"] = detail
+        tr = tc.traced_run(cfg.nodes, data, ctx, detail=detail, scratch=scratch, pipeline=pipe)
         starts = [r for r in tr.records if r.get("record_type") == "pipeline_start"]
         shutil.rmtree(tr.tdir, ignore_errors=True)
         if len(starts) != 1:
@@ -213,8 +219,14 @@ def identity_tuple(text: str, scratch: str, ctx: dict, data, *, cli_run: bool = 
     return T
 
 
+TRACE_DETAILS = ["hash", "repr", "all", "repr,context", None, "context"]
+
+
 def cli_args_for(path: str, ctx: dict, out: str, has_run_space: bool) -> list:
     argv = ["run", path, "--trace.driver", "jsonl", "--trace.output", out, "-q"]
+    d = TRACE_DETAILS[(os.path.getsize(path) + len(ctx)) % len(TRACE_DETAILS)]     # deterministic in the configuration text
+    if d is not None:
+        argv += ["--trace.option", f"detail={d}"]
     if not has_run_space:
         for k, v in ctx.items():
             argv += ["--context", f"{k}={json.dumps(v)}"]
@@ -261,7 +273,7 @@ def cli_run_fields(path: str, ctx: dict, scratch: str, has_run_space: bool) -> d
 # =========================================================================== comparison + classification
 IDENTITIES = ("node_uuid", "pipeline_id", "semantic_id", "config_id", "node_semantic_id", "required_keys",
               "run_space_spec_id", "payload_other")
-SKIP_FIELDS = {"payload.whole", "inspect.exit_code", "clirun.exit_code"}
+SKIP_FIELDS = {"payload.whole", "inspect.exit_code", "clirun.exit_code", "trace.detail_option", "trace_run2.detail_option"}
 LATER_RUNS = {"trace_run2", "clirun2", "clirun3"}
 
 
